@@ -42,6 +42,8 @@ STATEMENTS = [
     (20, "blk", ["if", "(", "z", ")", "then"]),
     (None, None, ["t", "=", "'!'", "//", "u"]),
     (None, None, ["print", " ", "*", ",", "'x'", ",", "1.0e-3"]),
+    (None, None, ["msg", "=", "'alpha   beta  '"]),
+    (None, None, ["w", "=", "\"two  ''  kinds\"", "//", "'  x'"]),
 ]
 COMMENTS = ["! note", "!", "! it's \"odd\" & strange ! really"]
 
